@@ -6,6 +6,9 @@ extern int g_host_depth_export;   // >0: allocations go to malloc, not the arena
 bool isStackAddr(const void* p);
 void taskReap(int id);
 void memReset();
+void traceDumpDiff();
+void traceNote(const char* kind, int64_t a, int64_t b, int64_t c);
+uint64_t currentSeed();
 void noPreemptEnter();
 void noPreemptLeave();
 }
